@@ -58,6 +58,8 @@ struct C<'a> {
     retry_now: dhcpv4::RetryConfig,
     /// the application is a member of 224.0.0.251
     joined: bool,
+    /// inside an early-poll probe (no application calls there)
+    probing: bool,
     last_client_tx: Option<i64>,
     /// after the latest valid ACK: first unicast / broadcast REQUEST times
     renew_seen: Option<i64>,
@@ -196,6 +198,7 @@ pub fn run(tape: &mut Tape, props: Props, thorough: bool, trace_on: bool) -> Out
         retry,
         retry_now: retry,
         joined,
+        probing: false,
         last_client_tx: None,
         renew_seen: None,
         rebind_seen: None,
@@ -359,6 +362,15 @@ fn poll(c: &mut C) -> Result<(), Violation> {
     }
     // (4) also when this poll sent nothing at all
     solicit_gap(c)?;
+    // ---- now and then the application restarts the client (a link-up notification, say) before it gets to read
+    // the events - more often right when the lease has just run out, so that a pending notification is at stake
+    let lease_over = c.configured.is_some() && c.deadline_strict.map(|d| c.now >= d).unwrap_or(false);
+    if !c.probing && c.tape.draw(if lease_over { 4 } else { 400 }) == 0 {
+        let s = c.node.sockets.get_mut::<dhcpv4::Socket>(c.h);
+        guard("dhcpv4::reset", || s.reset())?;
+        c.stats.inc("dhcp.reset-before-reading-events");
+        c.exact_since_bound = false;
+    }
     // ---- the application reads the client's events and applies them
     let ev = {
         let s = c.node.sockets.get_mut::<dhcpv4::Socket>(c.h);
@@ -812,7 +824,10 @@ fn body(c: &mut C, thorough: bool) -> Result<(), Violation> {
                     let unresolved = c.arp_pending;
                     let save = c.now;
                     c.now = t;
-                    poll(c)?;
+                    c.probing = true;
+                    let r = poll(c);
+                    c.probing = false;
+                    r?;
                     c.stats.inc("c13.early-probes");
                     if c.stats.get("frames.tx") > before {
                         return Err(viol("C13", "sufficiency", "C13.early-tx/dhcp-client", format!("poll_at at t={} us returned {:?}; an extra poll at t={} us with nothing delivered in between transmitted a frame", save, d, t)));
